@@ -8,8 +8,10 @@ import json, os, shutil, subprocess, sys, time
 V = os.path.dirname(os.path.dirname(os.path.abspath(__file__)))
 prop, k = sys.argv[1], sys.argv[2]
 also = sys.argv[3:]
-src = "/tmp/seed_out/%s" % prop
-wt = "/tmp/wt_%s" % prop
+rnd = os.environ.get("SEED_ROUND", "1")
+src = ("/tmp/seed_out/%s" if rnd == "1" else "/tmp/seed_out" + rnd + "/%s") % prop
+wt = ("/tmp/wt_%s" if rnd == "1" else "/tmp/wt" + rnd + "_%s") % prop
+fid = k if rnd == "1" else rnd + k
 patch = os.path.join(src, "patch%s.diff" % k)
 demo = os.path.join(src, "demo%s.sh" % k)
 if not os.path.exists(demo):
@@ -20,7 +22,7 @@ def sh(cmd, cwd=None, timeout=1800):
     p = subprocess.run(cmd, cwd=cwd, shell=True, env=env, stdout=subprocess.PIPE, stderr=subprocess.STDOUT, text=True, timeout=timeout)
     return p.returncode, p.stdout
 
-meta = {"property": prop, "seed": k, "confirmed_in": wt}
+meta = {"property": prop, "seed": fid, "round": rnd, "confirmed_in": wt}
 if not os.path.isdir(wt):
     sh("git -C /repo worktree add -q %s HEAD" % wt)
 sh("git checkout -q -- . && git clean -fdq", cwd=wt)
@@ -67,7 +69,7 @@ assert sh("git -C /repo status --porcelain")[1].strip() == ""
 meta["checks"] = results
 meta["caught_by"] = [p for p, r in results.items() if r["exit"] != 0]
 if ok:
-    dst = os.path.join(V, "seeded", "%s-%s" % (prop, k))
+    dst = os.path.join(V, "seeded", "%s-%s" % (prop, fid))
     os.makedirs(dst, exist_ok=True)
     shutil.copy(patch, os.path.join(dst, "patch.diff"))
     shutil.copy(demo, os.path.join(dst, "demo.sh"))
